@@ -154,6 +154,8 @@ type Obs struct {
 	Err    string  `json:"err"`  // "" | "panic" | "error"
 	ErrMsg string  `json:"errmsg,omitempty"`
 	FpTab  []FpRow `json:"fptab"`
+	// indices of the responses whose content at the end of the request differs from their content when received
+	Changed []int `json:"changed_after_receive,omitempty"`
 }
 
 type Case struct {
@@ -215,6 +217,74 @@ func parserOf(proto string) unmarshal.ParsingFunction {
 		return unmarshal.UnmarshalOTLPLogsV2
 	}
 	panic("unknown proto " + proto)
+}
+
+// digest of everything a response carries (FNV-1a over lengths and contents of all columns)
+func digest(r *model.ParserResponse) uint64 {
+	h := uint64(14695981039346656037)
+	w := func(v uint64) {
+		for i := 0; i < 8; i++ {
+			h ^= v & 0xff
+			h *= 1099511628211
+			v >>= 8
+		}
+	}
+	ws := func(s string) {
+		w(uint64(len(s)))
+		for i := 0; i < len(s); i++ {
+			h ^= uint64(s[i])
+			h *= 1099511628211
+		}
+	}
+	if r.SamplesRequest != nil {
+		s := r.SamplesRequest.(*model.TimeSamplesData)
+		w(uint64(len(s.MTimestampNS)))
+		for _, v := range s.MTimestampNS {
+			w(uint64(v))
+		}
+		w(uint64(len(s.MFingerprint)))
+		for _, v := range s.MFingerprint {
+			w(v)
+		}
+		w(uint64(len(s.MMessage)))
+		for _, v := range s.MMessage {
+			ws(v)
+		}
+		w(uint64(len(s.MValue)))
+		for _, v := range s.MValue {
+			w(math.Float64bits(v))
+		}
+		w(uint64(len(s.MTTLDays)))
+		for _, v := range s.MTTLDays {
+			w(uint64(v))
+		}
+		w(uint64(len(s.MType)))
+		for _, v := range s.MType {
+			w(uint64(v))
+		}
+		w(uint64(s.Size))
+	}
+	if r.TimeSeriesRequest != nil {
+		t := r.TimeSeriesRequest.(*model.TimeSeriesData)
+		w(uint64(len(t.MLabels)))
+		for _, v := range t.MLabels {
+			ws(v)
+		}
+		for _, v := range t.MFingerprint {
+			w(v)
+		}
+		for _, v := range t.MType {
+			w(uint64(v))
+		}
+		for _, v := range t.MTTLDays {
+			w(uint64(v))
+		}
+		for _, v := range t.MDate {
+			w(uint64(v.Unix()))
+		}
+		w(uint64(t.Size))
+	}
+	return h
 }
 
 func parseEncLabels(s string) ([]KV, bool) {
@@ -280,6 +350,12 @@ func run(c *Case) {
 			cache = &setCache{seen: map[uint64]bool{}}
 		}
 		ch = parserOf(c.Proto)(ctx, bytes.NewReader(wire), cache)
+		// The real consumer (controller.doParse -> doPush goroutines, with retries) still holds the responses it
+		// received while the parser goes on: every response is kept BY REFERENCE until the channel is closed and
+		// its columns are read only then. A digest taken at receive time tells whether a response already sent
+		// was changed afterwards (chunks_stable).
+		var held []*model.ParserResponse
+		var atReceive []uint64
 		for r := range ch {
 			if r.Error != nil {
 				if strings.HasPrefix(r.Error.Error(), "panic:") {
@@ -292,6 +368,13 @@ func run(c *Case) {
 					c.Obs.ErrMsg = c.Obs.ErrMsg[:300]
 				}
 				continue
+			}
+			held = append(held, r)
+			atReceive = append(atReceive, digest(r))
+		}
+		for i, r := range held {
+			if digest(r) != atReceive[i] {
+				c.Obs.Changed = append(c.Obs.Changed, i)
 			}
 			var k Chunk
 			if r.SamplesRequest != nil {
